@@ -1,4 +1,411 @@
-import Cppcms.C13.Model
-import Cppcms.C13.Spec
+import Cppcms.C13.Lemmas
+/-!
+# C13 — property theorems
+
+"The built-in file server never serves anything outside its document roots."
+The model (`Model.lean`) transcribes `src/internal_file_server.cpp` from `PATH_INFO` on, with
+every constant it compares against regenerated from the source (`Gen.lean`); the file system
+is the parameter `Fs`.  Statements are for all byte strings / all file systems obeying the
+stated laws.
+-/
 namespace Cppcms.C13.Props
+open Cppcms Cppcms.C13 Cppcms.C13.Spec
+
+/-- **normalize_never_climbs.**  For every input byte string (including NUL, non-UTF-8, no
+leading slash, empty) the lexically normalised path is absolute and none of its components is
+empty, `.` or `..`: no `..` survives, so appending it to a root cannot climb above the root.
+(The code's quirk `normalize "/a/b/../c" = "/ac"` is covered: glued components are still
+proper names.) -/
+theorem normalize_never_climbs (p : Bytes) : canonical (normalize p) = true := by
+  rcases normalize_shape p with h | ⟨c, cs, hg, h⟩
+  · rw [h]; exact canonical_slash
+  · rw [h]; exact canonical_render c cs hg
+
+/-- **is_file_prefix_iff_component_prefix.**  On canonical paths the string test the code uses
+is exactly the component-wise prefix relation: `/al` is a prefix of `/al` and `/al/x`, never of
+`/alX`. -/
+theorem is_file_prefix_iff_component_prefix (p f : Bytes) (hp : canonical p = true) (hf : canonical f = true) :
+    isFilePrefix p f = compPrefix p f := by
+  have key : isFilePrefix p f = true ↔ comps p <+: comps f := by
+    rw [isFilePrefix_spec]
+    rcases canonical_cases p hp with ⟨rfl, hP⟩ | ⟨c, cs, hP, rfl, hg⟩
+    · rw [hP]
+      constructor
+      · intro _; exact List.nil_prefix
+      · intro _
+        have : f.head? = some 47 := by
+          unfold canonical at hf
+          simp only [Bool.and_eq_true, beq_iff_eq] at hf
+          exact hf.1
+        cases f with
+        | nil => simp at this
+        | cons a t =>
+          simp at this
+          subst this
+          exact ⟨t, rfl, Or.inr (Or.inl rfl)⟩
+    · rw [hP]
+      have hsc : ∀ d ∈ c :: cs, (47 : UInt8) ∉ d := fun d hd => good_slashFree (hg d hd)
+      rcases canonical_cases f hf with ⟨rfl, hF⟩ | ⟨d, ds, hF, rfl, hgf⟩
+      · rw [hF]
+        constructor
+        · rintro ⟨rest, h, _⟩
+          exfalso
+          simp only [render_cons, List.cons_append, List.cons.injEq, true_and] at h
+          have : c = [] := by
+            have := congrArg List.length h
+            simp at this
+            exact List.length_eq_zero_iff.mp (by omega)
+          exact good_ne_nil (hg c (by simp)) this
+        · intro h
+          simp at h
+      · rw [hF]
+        have hsf : ∀ e ∈ d :: ds, (47 : UInt8) ∉ e := fun e he => good_slashFree (hgf e he)
+        constructor
+        · rintro ⟨rest, h, hcase⟩
+          have hr : rest = [] ∨ rest.head? = some 47 := by
+            rcases hcase with h1 | h1 | h1 | h1
+            · simp at h1
+            · exact absurd h1 (render_getLast c cs hg)
+            · exact Or.inl h1
+            · exact Or.inr h1
+          exact render_prefix (c :: cs) (d :: ds) rest hsc hsf hr h.symm
+        · rintro ⟨G, hG⟩
+          refine ⟨render G, by rw [← hG, render_append], ?_⟩
+          rcases render_head G with e | e
+          · exact Or.inr (Or.inr (Or.inl e))
+          · exact Or.inr (Or.inr (Or.inr e))
+  unfold compPrefix
+  rw [Bool.eq_iff_iff, key, List.isPrefixOf_iff_prefix]
+
+/-- **alias_choice_component_wise.**  For a canonical (normalised) request `n` and alias urls that
+are canonical and not `/` (what a sane configuration gives the constructor), the alias loop picks
+the *first alias whose url is a component-wise prefix of `n`*, hands on its target as root and a
+canonical remainder whose components are exactly the rest of `n`'s; with no such alias it is the
+document root and `n` itself. -/
+theorem alias_choice_component_wise (cfg : Config) (n : Bytes) (hn : canonical n = true)
+    (hal : ∀ a ∈ cfg.aliases, canonical a.1 = true ∧ a.1 ≠ [47]) :
+    match cfg.aliases.find? (fun a => compPrefix a.1 n) with
+    | some a => (pickRoot cfg n).1 = a.2 ∧ canonical (pickRoot cfg n).2 = true ∧
+                comps n = comps a.1 ++ comps (pickRoot cfg n).2
+    | none => pickRoot cfg n = (cfg.docRoot, n) := by
+  have hfind : cfg.aliases.find? (fun a => isFilePrefix a.1 n) = cfg.aliases.find? (fun a => compPrefix a.1 n) := by
+    have : ∀ l : List (Path × Path), (∀ a ∈ l, canonical a.1 = true) →
+        l.find? (fun a => isFilePrefix a.1 n) = l.find? (fun a => compPrefix a.1 n) := by
+      intro l hl
+      induction l with
+      | nil => rfl
+      | cons a l ih =>
+        simp only [List.find?_cons]
+        rw [is_file_prefix_iff_component_prefix a.1 n (hl a (by simp)) hn, ih (fun b hb => hl b (List.mem_cons_of_mem _ hb))]
+    exact this cfg.aliases (fun a ha => (hal a ha).1)
+  cases hf : cfg.aliases.find? (fun a => compPrefix a.1 n) with
+  | none =>
+    simp only
+    unfold pickRoot
+    rw [hfind, hf]
+  | some a =>
+    simp only
+    have ha := List.mem_of_find?_eq_some hf
+    have hpa : compPrefix a.1 n = true := by
+      have := List.find?_some hf
+      exact this
+    have hp : isFilePrefix a.1 n = true := by rw [is_file_prefix_iff_component_prefix a.1 n (hal a ha).1 hn]; exact hpa
+    obtain ⟨rest, hsplit, _⟩ := (isFilePrefix_spec a.1 n).mp hp
+    have hpick : pickRoot cfg n = (a.2, if (n.drop a.1.length).isEmpty then Gen.cidrEmptyRepl else n.drop a.1.length) := by
+      unfold pickRoot
+      rw [hfind, hf]
+    have hd : n.drop a.1.length = rest := by rw [hsplit]; simp
+    rw [hpick, hd, gen_cidr.1]
+    simp only
+    unfold compPrefix at hpa
+    obtain ⟨G, hG⟩ := List.isPrefixOf_iff_prefix.mp hpa
+    by_cases he : rest = []
+    · subst he
+      simp only [List.isEmpty_nil, if_true]
+      refine ⟨trivial, canonical_slash, ?_⟩
+      simp at hsplit
+      rw [hsplit, comps_slash]; simp
+    · have hie : rest.isEmpty = false := by simpa using he
+      simp only [hie, Bool.false_eq_true, if_false, true_and]
+      rcases canonical_cases a.1 (hal a ha).1 with ⟨ha1, _⟩ | ⟨c, cs, hA, ha1, hgA⟩
+      · exact absurd ha1 (hal a ha).2
+      · rw [hA] at hG
+        rcases canonical_cases n hn with ⟨_, hN⟩ | ⟨d, ds, hN, hn1, hgN⟩
+        · rw [hN] at hG; simp at hG
+        · rw [hN] at hG
+          have hr : rest = render G := by
+            have : render (c :: cs) ++ rest = render (c :: cs) ++ render G := by
+              rw [← render_append, hG, ← hn1, ← ha1]; exact hsplit.symm
+            exact List.append_cancel_left this
+          cases G with
+          | nil => rw [hr] at he; simp at he
+          | cons g gs =>
+            have hgG : ∀ e ∈ g :: gs, goodComp e = true := by
+              intro e hm
+              apply hgN
+              rw [← hG]
+              exact List.mem_append_right _ hm
+            rw [hr]
+            refine ⟨canonical_render g gs hgG, ?_⟩
+            rw [comps_render g gs (good_ne_nil (hgG g (by simp))) (fun e hm => good_slashFree (hgG e hm)), hN, hA, hG]
+
+/-- what `main` handed to `open` (file streamed) or `opendir` (directory listed), if anything -/
+abbrev openedPath (fs : Fs) (cfg : Config) (f : Bytes) : Option Path := (main fs cfg f).opened
+
+/-- POSIX law for the external `realpath`: every answer is an absolute path without empty, `.`
+or `..` components and without trailing slash -/
+def RealpathLaw (fs : Fs) : Prop := ∀ q r, fs.realpath q = some r → canonical r = true
+
+/-- the roots stored by the constructor are `realpath` answers -/
+def RootsCanonical (cfg : Config) : Prop :=
+  canonical cfg.docRoot = true ∧ ∀ a ∈ cfg.aliases, canonical a.2 = true
+
+/-- **served_inside_root** (symlink checking on).  Whenever `main` streams a file or lists a
+directory — for the request itself or for request + `/` + index file — the path it opens is the
+answer `realpath` gave for `root ++ "/" ++ rest`, where `(root, rest)` is what the alias loop chose
+for the normalised request (`alias_choice_component_wise` says which), `rest` is canonical, and
+the opened path lies inside `root` component-wise (`Spec.inside`), i.e. after all symbolic
+links were followed. -/
+theorem served_inside_root_symlinks (fs : Fs) (cfg : Config) (f : Bytes) (path : Path)
+    (hfs : RealpathLaw fs) (hroots : RootsCanonical cfg) (hs : cfg.checkSymlinks = true)
+    (h : openedPath fs cfg f = some path) :
+    ∃ req, (req = f ∨ req = f ++ [47] ++ cfg.indexFile) ∧
+      canonical (pickRoot cfg (normalize req)).2 = true ∧
+      fs.realpath (cstr ((pickRoot cfg (normalize req)).1 ++ [47] ++ (pickRoot cfg (normalize req)).2)) = some path ∧
+      inside (pickRoot cfg (normalize req)).1 path = true := by
+  have key : ∀ req, checkInDocumentRoot fs cfg req = some path →
+      canonical (pickRoot cfg (normalize req)).2 = true ∧
+      fs.realpath (cstr ((pickRoot cfg (normalize req)).1 ++ [47] ++ (pickRoot cfg (normalize req)).2)) = some path ∧
+      inside (pickRoot cfg (normalize req)).1 path = true := by
+    intro req hc
+    obtain ⟨hcan, hrest⟩ := cidr_some fs cfg req path hc
+    simp only [hs, if_true] at hrest
+    obtain ⟨hreal, hpre⟩ := hrest
+    refine ⟨hcan, hreal, ?_⟩
+    have hrootc : canonical (pickRoot cfg (normalize req)).1 = true := by
+      rcases pickRoot_root cfg (normalize req) with e | ⟨a, ha, e⟩
+      · rw [e]; exact hroots.1
+      · rw [e]; exact hroots.2 a ha
+    have hpathc := hfs _ _ hreal
+    unfold inside
+    rw [hrootc, hpathc, ← is_file_prefix_iff_component_prefix _ _ hrootc hpathc, hpre]
+    rfl
+  rcases main_opened fs cfg f path h with hc | hc
+  · exact ⟨f, Or.inl rfl, key f hc⟩
+  · exact ⟨_, Or.inr rfl, key _ hc⟩
+
+/-- **served_inside_root** (symlink checking off): the check is purely lexical.  Whatever `main`
+opens is, as a `std::string`, `root ++ rest` for the chosen root and a canonical `rest` (in
+particular free of `..`; a lone `/` is dropped). -/
+theorem served_lexical_no_symlink_check (fs : Fs) (cfg : Config) (f : Bytes) (path : Path)
+    (hs : cfg.checkSymlinks = false) (h : openedPath fs cfg f = some path) :
+    ∃ req, (req = f ∨ req = f ++ [47] ++ cfg.indexFile) ∧
+      canonical (pickRoot cfg (normalize req)).2 = true ∧
+      path = (pickRoot cfg (normalize req)).1 ++
+        (if (pickRoot cfg (normalize req)).2 = [47] then [] else (pickRoot cfg (normalize req)).2) := by
+  have key : ∀ req, checkInDocumentRoot fs cfg req = some path →
+      canonical (pickRoot cfg (normalize req)).2 = true ∧
+      path = (pickRoot cfg (normalize req)).1 ++
+        (if (pickRoot cfg (normalize req)).2 = [47] then [] else (pickRoot cfg (normalize req)).2) := by
+    intro req hc
+    obtain ⟨hcan, hrest⟩ := cidr_some fs cfg req path hc
+    simp only [hs, Bool.false_eq_true, if_false] at hrest
+    exact ⟨hcan, hrest⟩
+  rcases main_opened fs cfg f path h with hc | hc
+  · exact ⟨f, Or.inl rfl, key f hc⟩
+  · exact ⟨_, Or.inr rfl, key _ hc⟩
+
+/-- **normalize_bytes_from_input.**  Normalisation invents no bytes: every byte of the result is a
+byte of the input or `/`.  In particular a NUL-free request stays NUL-free. -/
+theorem normalize_bytes_from_input (p : Bytes) : ∀ x ∈ normalize p, x ∈ p ∨ x = 47 :=
+  normalize_bytes p
+
+/-- **served_lexical_cstring.**  Symlink checking off, and `PATH_INFO`, the index file name and the
+roots free of NUL (they are C strings in every deployment): the `std::string` that `main` opens
+contains no NUL, so the C string the kernel receives is the whole `root ++ rest` of
+`served_lexical_no_symlink_check`, not a truncation of it. -/
+theorem served_lexical_cstring (fs : Fs) (cfg : Config) (f : Bytes) (path : Path)
+    (hs : cfg.checkSymlinks = false) (h : openedPath fs cfg f = some path)
+    (hf : (0 : UInt8) ∉ f) (hi : (0 : UInt8) ∉ cfg.indexFile)
+    (hr : (0 : UInt8) ∉ cfg.docRoot ∧ ∀ a ∈ cfg.aliases, (0 : UInt8) ∉ a.2) :
+    (0 : UInt8) ∉ path ∧ cstr path = path := by
+  obtain ⟨req, hreq, _, hp⟩ := served_lexical_no_symlink_check fs cfg f path hs h
+  have hreq0 : (0 : UInt8) ∉ req := by
+    rcases hreq with rfl | rfl
+    · exact hf
+    · simp [hf, hi]
+  have hroot0 : (0 : UInt8) ∉ (pickRoot cfg (normalize req)).1 := by
+    rcases pickRoot_root cfg (normalize req) with e | ⟨a, ha, e⟩
+    · rw [e]; exact hr.1
+    · rw [e]; exact hr.2 a ha
+  have hrest0 : (0 : UInt8) ∉ (pickRoot cfg (normalize req)).2 := by
+    intro m
+    rcases pickRoot_rest_bytes cfg (normalize req) 0 m with m | m
+    · rcases normalize_bytes req 0 m with m | m
+      · exact hreq0 m
+      · simp at m
+    · simp at m
+  have h0 : (0 : UInt8) ∉ path := by
+    rw [hp]
+    intro m
+    rcases List.mem_append.mp m with m | m
+    · exact hroot0 m
+    · split at m
+      · simp at m
+      · exact hrest0 m
+  exact ⟨h0, cstr_of_nul_free path h0⟩
+
+/-- **path_info_nul_free.**  Whatever the request target, the `PATH_INFO` the HTTP front end hands to
+the file server contains no NUL (it is stored as a C string): the hypothesis of
+`served_lexical_cstring` holds for every request that arrives over HTTP. -/
+theorem path_info_nul_free (target : Bytes) : (0 : UInt8) ∉ pathInfoOfTarget target :=
+  cstr_nul_free _
+
+/-- the file system of the witness below: `/r` and `/r/..` are directories, `/r/..` holds `secret` -/
+def witnessFs : Fs where
+  realpath _ := none
+  mode q := if q = [47, 114] ∨ q = [47, 114, 47, 46, 46] then 16877
+            else if q = [47, 114, 47, 46, 46, 47, 115] then 33188 else 0
+  readdir q := if q = [47, 114, 47, 46, 46] then some [[46], [46, 46], [115]] else none
+  read _ := none
+
+/-- **nul_truncation_needs_hypothesis.**  Why `served_lexical_cstring` assumes NUL-freeness: called
+with `file_name = "/..\0"`, symlink checking off and listing on, `main` lists the directory
+`"/r/..\0"`, which the kernel reads as `/r/..` — the parent of the document root.  This is a fact
+about the function `main`, not about the server: no front end can deliver a NUL inside
+`PATH_INFO` (`path_info_nul_free`). -/
+theorem nul_truncation_needs_hypothesis :
+    let cfg : Config := { docRoot := [47, 114], aliases := [], checkSymlinks := false, listing := true }
+    main witnessFs cfg [47, 46, 46, 0, 47] = .listing [47, 46, 46, 0, 47] [47, 114, 47, 46, 46, 0] [⟨[115], [47]⟩] ∧
+    noDotDot (cstr [47, 114, 47, 46, 46, 0]) = false := by
+  decide +kernel
+
+/-- **only_regular_files_streamed.**  If `main` streams `content` from `path` then `stat(path)` had
+the `S_IFREG` bit (mask `0100000`) and `content` is what opening and reading `path` gave. -/
+theorem only_regular_files_streamed (fs : Fs) (cfg : Config) (f : Bytes) (path : Path) (content : Bytes)
+    (h : main fs cfg f = .serve path content) :
+    fs.mode (cstr path) &&& 0o100000 ≠ 0 ∧ fs.read (cstr path) = some content :=
+  main_serve fs cfg f path content h
+
+/-- POSIX laws for the externals `stat` and `open`: the type field of `st_mode` is one of the seven
+file types minus `S_IFLNK` (stat follows links; 0 = stat failed), and a socket cannot be opened -/
+def StatLaw (fs : Fs) : Prop :=
+  (∀ q, ftype (fs.mode q) ∈ statTypes) ∧ (∀ q, ftype (fs.mode q) = ftSock → fs.read q = none)
+
+/-- **only_regular_files_streamed_posix.**  The code tests the file type with `&` (so a socket,
+`0140000`, passes `& S_IFREG`); under the POSIX laws above what is actually streamed is still a
+regular file. -/
+theorem only_regular_files_streamed_posix (fs : Fs) (cfg : Config) (f : Bytes) (path : Path) (content : Bytes)
+    (hlaw : StatLaw fs) (h : main fs cfg f = .serve path content) :
+    ftype (fs.mode (cstr path)) = ftReg := by
+  obtain ⟨hbit, hread⟩ := main_serve fs cfg f path content h
+  have hb := and_two_pow_ne_zero _ 15 hbit
+  have ht := hlaw.1 (cstr path)
+  have hs := hlaw.2 (cstr path)
+  unfold ftype ftReg ftSock statTypes at *
+  simp only [List.mem_cons, List.not_mem_nil, or_false] at ht
+  rcases ht with e | e | e | e | e | e | e
+  all_goals first
+    | omega
+    | (exfalso; rw [hs e] at hread; simp at hread)
+
+/-- **listing_only_when_enabled.** -/
+theorem listing_only_when_enabled (fs : Fs) (cfg : Config) (f url : Bytes) (path : Path) (rows : List Row)
+    (h : main fs cfg f = .listing url path rows) : cfg.listing = true :=
+  (main_listing fs cfg f url path rows h).1
+
+/-- **listing_skips_dotfiles_and_escapes.**  The page is titled with the HTML-escaped request path;
+every row is an entry `readdir` returned for the directory opened, its name does not start with
+`.`, and its visible text is safe markup-wise (`Spec.escapedFor`: no `< > " '`, every `&` starts a
+character reference) and un-escapes to the name, plus `/` for directories. -/
+theorem listing_skips_dotfiles_and_escapes (fs : Fs) (cfg : Config) (f url : Bytes) (path : Path) (rows : List Row)
+    (h : main fs cfg f = .listing url path rows) :
+    url = f ∧ escapedFor url (escape url) = true ∧
+    ∃ names, fs.readdir (cstr path) = some names ∧
+      ∀ r ∈ rows, r.name ∈ names ∧ r.name.head? ≠ some 46 ∧ (r.add = [] ∨ r.add = [47]) ∧
+        escapedFor (r.name ++ r.add) r.text = true := by
+  obtain ⟨_, hu, names, hrd, hrows⟩ := main_listing fs cfg f url path rows h
+  refine ⟨hu, ?_, names, hrd, ?_⟩
+  · simpa using escapedFor_escape_append url [] (by decide) (by decide) (by decide)
+  · intro r hr
+    rw [hrows, List.mem_filterMap] at hr
+    obtain ⟨name, hn, hrow⟩ := hr
+    obtain ⟨h1, h2, h3⟩ := listRow_some fs path name r hrow
+    refine ⟨by rw [h1]; exact hn, by rw [h1]; exact h2, h3, ?_⟩
+    unfold Row.text
+    rcases h3 with e | e
+    · rw [e]; exact escapedFor_escape_append r.name [] (by decide) (by decide) (by decide)
+    · rw [e]; exact escapedFor_escape_append r.name [47] (by decide) (by decide) (by decide)
+
+/-- **redirect_target.**  The only redirect the file server issues goes to the request path plus a
+trailing `/`, and only for a path that `check_in_document_root` accepted, whose `stat` has the
+`S_IFDIR` bit, that does not already end in `/`, when an index file exists or listing is on. -/
+theorem redirect_target (fs : Fs) (cfg : Config) (f loc : Bytes) (h : main fs cfg f = .redirect loc) :
+    loc = f ++ [47] ∧ f ≠ [] ∧ f.getLast? ≠ some 47 ∧
+    (∃ p, checkInDocumentRoot fs cfg f = some p ∧ fs.mode (cstr p) &&& 0o040000 ≠ 0) ∧
+    ((indexPath fs cfg f).isSome = true ∨ cfg.listing = true) :=
+  main_redirect fs cfg f loc h
+
+/-! ### Non-vacuity / sanity instances (tests of the statements' reading, not the theorems) -/
+
+section Examples
+/-- a small file system: `/r` (dir) holds `a.txt`, `.h`, `d/` (dir, no index), `l` → `/o/s.txt` (outside);
+`/t` is an alias target with `index.html` -/
+def exFs : Fs where
+  realpath q :=
+    if q = [47,114,47,47,97,46,116,120,116] then some [47,114,47,97,46,116,120,116]        -- /r//a.txt
+    else if q = [47,114,47,47,100] then some [47,114,47,100]                               -- /r//d
+    else if q = [47,114,47,47,108] then some [47,111,47,115,46,116,120,116]                -- /r//l -> /o/s.txt
+    else if q = [47,116,47,47] then some [47,116]                                          -- /t//
+    else if q = [47,116,47,47,105,110,100,101,120,46,104,116,109,108] then some [47,116,47,105,110,100,101,120,46,104,116,109,108]
+    else none
+  mode q :=
+    if q = [47,114,47,100] ∨ q = [47,116] then 16877
+    else if q = [47,114,47,97,46,116,120,116] ∨ q = [47,111,47,115,46,116,120,116] ∨ q = [47,116,47,105,110,100,101,120,46,104,116,109,108]
+          ∨ q = [47,114,47,100,47,60,98,62] ∨ q = [47,114,47,108] then 33188
+    else 0
+  readdir q := if q = [47,114,47,100] then some [[46], [46,46], [46,104], [60,98,62]] else none
+  read q :=
+    if q = [47,114,47,97,46,116,120,116] then some [65]
+    else if q = [47,111,47,115,46,116,120,116] ∨ q = [47,114,47,108] then some [83]
+    else if q = [47,116,47,105,110,100,101,120,46,104,116,109,108] then some [73]
+    else none
+
+def exCfg : Config := { docRoot := [47,114], aliases := [([47,120], [47,116])], checkSymlinks := true, listing := true }
+
+-- a file is served: hypotheses of served_inside_root_symlinks / only_regular_files_streamed are met non-trivially
+example : main exFs exCfg [47,97,46,116,120,116] = .serve [47,114,47,97,46,116,120,116] [65] := by decide +kernel
+-- the symlink to the outside is refused (404) although the target is a regular file
+example : main exFs exCfg [47,108] = .notFound := by decide +kernel
+-- alias `/x` → `/t` with an index file: `/x/` serves `/t/index.html`
+example : main exFs exCfg [47,120,47] = .serve [47,116,47,105,110,100,101,120,46,104,116,109,108] [73] := by decide +kernel
+-- `/xy` is not under alias `/x`
+example : main exFs exCfg [47,120,121] = .notFound := by decide +kernel
+-- directory without trailing slash: redirect; with it: listing that omits `.h` and escapes `<b>`
+example : main exFs exCfg [47,100] = .redirect [47,100,47] := by decide +kernel
+example : main exFs exCfg [47,100,47] = .listing [47,100,47] [47,114,47,100] [⟨[60,98,62], []⟩] := by decide +kernel
+example : (Row.text ⟨[60,98,62], []⟩) = [38,108,116,59,98,38,103,116,59] := by decide +kernel
+-- climbing is neutralised lexically, and the quirk of the real code is reproduced
+example : normalize [47,46,46,47,46,46,47,97,46,116,120,116] = [47,97,46,116,120,116] := by decide +kernel
+example : normalize [47,97,47,98,47,46,46,47,99] = [47,97,99] := by decide +kernel
+-- is_file_prefix on canonical paths: `/al` vs `/alX`, `/al/x`, `/al`
+example : isFilePrefix [47,97,108] [47,97,108,88] = false ∧ isFilePrefix [47,97,108] [47,97,108,47,120] = true ∧
+    isFilePrefix [47,97,108] [47,97,108] = true := by decide +kernel
+-- the laws assumed of the externals hold of the example file system where they are used
+example : ∀ q ∈ [[47,114,47,47,97,46,116,120,116], [47,114,47,47,100], [47,114,47,47,108], [47,116,47,47]],
+    ∀ r, exFs.realpath q = some r → canonical r = true := by decide +kernel
+example : RootsCanonical exCfg := by
+  refine ⟨by decide +kernel, ?_⟩
+  intro a ha
+  simp [exCfg] at ha
+  subst ha
+  decide +kernel
+-- symlink checking off: the same request for `/l` is accepted lexically (root ++ rest) and the link is followed
+example : main exFs { exCfg with checkSymlinks := false } [47,108] = .serve [47,114,47,108] [83] := by decide +kernel
+example : checkInDocumentRoot exFs { exCfg with checkSymlinks := false } [47,46,46,47,108] = some [47,114,47,108] := by decide +kernel
+-- PATH_INFO from a request target: `%2e%2e` decodes to `..`, `%00` cuts the string
+example : pathInfoOfTarget [47,37,50,101,37,50,101,47,97,37,48,48,98,63,113] = [47,46,46,47,97] := by
+  simp [pathInfoOfTarget, urldecode, hexVal, cstr]
+end Examples
+
 end Cppcms.C13.Props
